@@ -42,3 +42,7 @@ register("C09", "exploration",
          "Generated topologies (type tables with exact/reversed/wildcard entries and multiple terms, parameter-less interactions in both listing directions, 1-4 instances, #define macros, OPLS bond types, C6/C12 or sigma/epsilon atom types, nonbond_params subsets) are preprocessed and every instance is compared with an independent resolver (set of tied-best entries); the non-bonded table is checked for override precedence, self terms and C6/C12 conversion. The 16 masks x listing direction x key direction x competing-exact grid is enumerated in every run.",
          "resolver R3 in pbt/c09.py; comb-rule formula assignment not asserted; 4-6 atom chain molecules",
          "Hypothesis-generated inputs + enumerated mask grid, reference-resolver oracle", "DESIGN.md 4/C09")
+register("C08", "exploration",
+         "Generated include trees (nested directories, repeated and conditional includes with #else, #error, #define before/after use, random trivia, absolute/relative main path) are read with Topology.from_gmx_topfile and compared with the reading of the single file produced by an independent flattener; molecule list expansion, instance independence and the #error verdict are checked against the spec.",
+         "flattener R2 in pbt/c08.py; one-level conditionals, defines outside conditionals, includes between whole blocks; known finding F13 excluded by construction in 7/8 of the draws",
+         "Hypothesis-generated inputs + differential oracle against an independent flattener", "DESIGN.md 4/C08")
